@@ -76,9 +76,30 @@ class Recorder:
         }, open(path, "w"))
 
 
-def run_parallel(pid, script, tier, nworkers, examples_per_worker, level, rule, assumptions, seed, extra_env=None, exhaustive=False):
+def run_regress(pid, run_one):
+    """replay tier: saved cases of regress/<pid>.jsonl, one attempt each; returns ({sig: failure}, n)"""
+    path = os.path.join(VERIF, "regress", f"{pid}.jsonl")
+    fails, n = {}, 0
+    if not os.path.exists(path) or run_one is None:
+        return fails, n
+    for l in open(path):
+        l = l.strip()
+        if not l or l.startswith("#"):
+            continue
+        case = json.loads(l)
+        n += 1
+        try:
+            for sig, msg in run_one(case):
+                fails.setdefault(sig, {"sig": sig, "msg": "[saved regression case] " + msg, "case": {k: v for k, v in case.items() if k not in ("property", "signature", "message")}})
+        except Exception:
+            pass  # inconclusive session: the generated cases decide
+    return fails, n
+
+
+def run_parallel(pid, script, tier, nworkers, examples_per_worker, level, rule, assumptions, seed, extra_env=None, exhaustive=False, regress_one=None):
     """spawn workers, aggregate, write evidence, print protocol lines, return exit code"""
     t0 = time.time()
+    pre_fails, n_regress = run_regress(pid, regress_one)
     work = os.path.join(VERIF, "work", "py", pid)
     os.makedirs(work, exist_ok=True)
     os.makedirs(os.path.join(VERIF, "work", "logs"), exist_ok=True)
@@ -91,8 +112,8 @@ def run_parallel(pid, script, tier, nworkers, examples_per_worker, level, rule, 
         env.update(extra_env or {})
         p = subprocess.Popen([sys.executable, script, "--worker", str(w), "--n", str(examples_per_worker), "--seed", str(seed), "--tier", tier, "--out", out], env=env, stdout=subprocess.PIPE, stderr=subprocess.STDOUT)
         procs.append((p, out))
-    agg = {"evaluations": 0, "nontrivial": set(), "classes": {}, "samples": [], "known_hits": {}, "inconclusive": 0}
-    failures = {}
+    agg = {"evaluations": n_regress, "nontrivial": set(), "classes": {}, "samples": [], "known_hits": {}, "inconclusive": 0}
+    failures = dict(pre_fails)
     errors = []
     for p, out in procs:
         log, _ = p.communicate()
@@ -133,7 +154,7 @@ def run_parallel(pid, script, tier, nworkers, examples_per_worker, level, rule, 
         "coverage": {
             "evaluations": agg["evaluations"], "distinct_nontrivial": len(agg["nontrivial"]), "rule": rule,
             "samples": agg["samples"][:6], "exhaustive": exhaustive, "class_histogram": agg["classes"],
-            "known_finding_hits": agg["known_hits"], "inconclusive_cases": agg["inconclusive"], "worker_errors": errors[:3],
+            "known_finding_hits": agg["known_hits"], "saved_regression_cases_replayed": n_regress, "inconclusive_cases": agg["inconclusive"], "worker_errors": errors[:3],
             "violation_replays": replays,
         },
         "assumptions": assumptions, "wall_s": time.time() - t0, "violations": len(failures),
